@@ -1,0 +1,56 @@
+//go:build verif
+
+// Verification hooks (add-only, compiled only with -tags verif).
+package internal
+
+import "github.com/bilibili/smgo/sm2/internal/fiat"
+
+// VerifTables returns the live precomputed tables by name.
+func VerifTables() (three map[string][][][]*[4]uint64, two map[string][][]*[4]uint64) {
+	three = map[string][][][]*[4]uint64{
+		"sm2Precomputed_4_2_32": sm2Precomputed_4_2_32,
+		"sm2Precomputed_6_3_14": sm2Precomputed_6_3_14,
+		"sm2Precomputed_5_3_17": sm2Precomputed_5_3_17,
+		"sm2Precomputed_7_3_12": sm2Precomputed_7_3_12,
+	}
+	two = map[string][][]*[4]uint64{
+		"sm2Precomputed_6_3_14_Remainder": sm2Precomputed_6_3_14_Remainder,
+		"sm2Precomputed_5_3_17_Remainder": sm2Precomputed_5_3_17_Remainder,
+		"sm2Precomputed_7_3_12_Remainder": sm2Precomputed_7_3_12_Remainder,
+	}
+	return
+}
+
+// VerifCoords returns the projective coordinates (Montgomery limbs) of p.
+func (p *SM2Point) VerifCoords() (x, y, z [4]uint64) {
+	return *p.x.GetRaw(), *p.y.GetRaw(), *p.z.GetRaw()
+}
+
+// VerifFromCoords builds a point from raw projective Montgomery limbs (no checks).
+func VerifFromCoords(x, y, z [4]uint64) *SM2Point {
+	return &SM2Point{
+		x: new(fiat.SM2Element).SetRaw(x),
+		y: new(fiat.SM2Element).SetRaw(y),
+		z: new(fiat.SM2Element).SetRaw(z),
+	}
+}
+
+func VerifScalarBaseMultScheme(scheme string, k []byte) (*SM2Point, error) {
+	switch scheme {
+	case "4_2_32":
+		return scalarBaseMult_SkipBitExtraction_4_2_32(k)
+	case "5_3_17":
+		return scalarBaseMult_SkipBitExtraction_5_3_17(k)
+	case "6_3_14":
+		return scalarBaseMult_SkipBitExtraction_6_3_14(k)
+	case "7_3_12":
+		return scalarBaseMult_SkipBitExtraction_7_3_12(k)
+	}
+	panic("verif: unknown scheme")
+}
+
+func VerifExtractHigherBits(k []byte, idx, window, stepSize int) byte {
+	return extractHigherBits(k, idx, window, stepSize)
+}
+func VerifExtractLowerBits(k []byte, count int) byte { return extractLowerBits(k, count) }
+func VerifB() *fiat.SM2Element                      { return sm2B }
